@@ -39,14 +39,16 @@ theorem selsOKb_iff : ∀ (H : List α) (Z : List (Sel α)),
       decide_eq_false_iff_not, List.all_eq_true, decide_eq_true_eq, true_and, selsOKb_iff]
     constructor
     · rintro ⟨h1, h2⟩
-      refine ⟨fun hx => ?_, h2⟩
+      refine ⟨Or.inr (fun hx => ?_), h2⟩
       rcases h1 with h1 | h1
       · exact absurd hx h1
       · exact h1
     · rintro ⟨h1, h2⟩
       refine ⟨?_, h2⟩
       by_cases hx : z.x ∈ H
-      · exact Or.inr (h1 hx)
+      · rcases h1 with ⟨_, h1⟩ | h1
+        · exact absurd hx h1
+        · exact Or.inr (h1 hx)
       · exact Or.inl hx
 
 end DH.Ask
